@@ -71,12 +71,21 @@ def task_items(*args):
     return repr(_norm(k)) + '=>' + _work(v)
 
 
+class OtherTaskError(Exception):
+    """an exception the caller of apply_except did NOT ask to be silenced"""
+
+
+RAISE_OTHER = set()
+
+
 def frame_task(f):
     """Batch task: delay keyed by the Frame's content, result is a Frame that identifies its input"""
     s = sig(f)
     d = DELAYS.get(s, 0)
     if d:
         time.sleep(d)
+    if s in RAISE_OTHER:
+        raise OtherTaskError(s)
     if s in RAISE:
         raise TaskError(s)
     return f * 2 + f.shape[0]
@@ -333,10 +342,12 @@ def eval_batch(rep, case):
     items = batch_frames(n)
     tag = 'threads' if case['threads'] else 'processes'
     rp = dict(case)
-    rep.count(distinct_key=(op, n, tuple(perm), case['w'], case['c'], case['threads'], case.get('raise_at')), sample=dict(case))
+    rep.count(distinct_key=(op, n, tuple(perm), case['w'], case['c'], case['threads'], case.get('raise_at'), case.get('raise_other_at')), sample=dict(case))
     DELAYS.clear()
     RAISE.clear()
+    RAISE_OTHER.clear()
     raise_at = case.get('raise_at')
+    raise_other_at = case.get('raise_other_at')
     excepting = op.endswith('except')
     # reference: {label: op(frame)} in label order (labels whose task raises are dropped by the *_except forms only)
     want = [(l, BATCH_REF[op](l, f)) for i, (l, f) in enumerate(items) if i != raise_at]
@@ -347,6 +358,8 @@ def eval_batch(rep, case):
             DELAYS[sig(src)] = perm[i] * UNIT
             if i == raise_at:
                 RAISE.add(sig(src))
+            if i == raise_other_at:
+                RAISE_OTHER.add(sig(src))
         results = {}
         for mode, kw in (('seq', {}), ('pool', dict(max_workers=case['w'], chunksize=case['c'], use_threads=case['threads']))):
             if mode == 'seq':
@@ -369,9 +382,17 @@ def eval_batch(rep, case):
     finally:
         DELAYS.clear()
         RAISE.clear()
+        RAISE_OTHER.clear()
     seq, par = results['seq'], results['pool']
     if par[0] == 'not-implemented':
         return          # documented restriction (apply_except with chunksize != 1)
+    if raise_other_at is not None:
+        # an exception of a class the caller did not ask to silence surfaces in both forms
+        if par[0] != 'raised':
+            rep.fail(f'{PID}:batch:{tag}:unrequested-exception-swallowed', f'Batch.{op}: task {raise_other_at} raised OtherTaskError (only TaskError is to be skipped) but the pooled Batch returned {str(par)[:300]}; sequential: {str(seq)[:120]}', rp)
+        elif seq[0] != 'raised':
+            rep.fail(f'{PID}:batch:sequential:unrequested-exception-swallowed', f'Batch.{op}: task {raise_other_at} raised OtherTaskError but the sequential Batch returned {str(seq)[:300]}', rp)
+        return
     if raise_at is not None and not excepting:
         if par[0] != 'raised':
             rep.fail(f'{PID}:batch:{tag}:task-error-swallowed', f'Batch.{op}: task {raise_at} raised but the pooled Batch returned {str(par)[:300]}', rp)
@@ -414,6 +435,10 @@ def cases_batch(tier):
                 for pos in range(n):
                     for w in (1, 2, 4):
                         yield dict(area='batch', op=op, n=n, perm=list(range(n))[::-1], w=w, c=1, threads=True, raise_at=pos, export='items')
+                        if op.endswith('except'):
+                            yield dict(area='batch', op=op, n=n, perm=list(range(n))[::-1], w=w, c=1, threads=True, raise_other_at=pos, export='items')
+                            if n >= 2:      # one task fails with the requested class, another with a different one
+                                yield dict(area='batch', op=op, n=n, perm=list(range(n)), w=w, c=1, threads=True, raise_at=(pos + 1) % n, raise_other_at=pos, export='items')
     for n in (3,) if quick else (1, 2, 3, 4):
         perms = list(itertools.permutations(range(n)))
         for k, op in enumerate(BATCH_OPS):
